@@ -58,7 +58,7 @@ func waitGap(us int) {
 func genDelayCase(rng *rand.Rand, kind string) dcase {
 	c := dcase{Kind: kind, Seed: rng.Int63()}
 	c.DelayUs = []int{0, 0, 1, 50, 1000, 10000, 30000}[rng.Intn(7)]
-	if kind == "router" {
+	if kind == "router" || kind == "router2" {
 		c.JitterUs = []int{0, 0, 200}[rng.Intn(3)]
 	}
 	senders := 1
@@ -116,6 +116,7 @@ func runDelayCase(c dcase, r *res.Result) (string, string) {
 	var inject func(ch vnet.Chunk)
 	var stop func()
 	parkFn := ""
+	nat := false // the path clones the chunk (NAT): identity is by tag, the source is translated
 	switch c.Kind {
 	case "filter":
 		f, err := vnet.NewDelayFilter(sink, delay)
@@ -134,6 +135,36 @@ func runDelayCase(c dcase, r *res.Result) (string, string) {
 		inject = func(ch vnet.Chunk) { vnet.VerifInject(f, ch) }
 		stop = cancel
 		parkFn = "vnet.(*DelayFilter).Run"
+	case "router2":
+		// two routers in series (LAN child behind its parent), each with the minimum delay: a datagram enters the second
+		// router only after the first one released it, so the end-to-end lower bound is twice the delay
+		wan, err := vnet.NewRouter(&vnet.RouterConfig{CIDR: "10.9.0.0/24", MinDelay: delay, MaxJitter: time.Duration(c.JitterUs) * time.Microsecond, LoggerFactory: vn.Silent()})
+		if err != nil {
+			return "delay:ctor", err.Error()
+		}
+		lan, err := vnet.NewRouter(&vnet.RouterConfig{CIDR: "192.168.0.0/24", MinDelay: delay, LoggerFactory: vn.Silent(),
+			NATType: &vnet.NATType{MappingBehavior: vnet.EndpointIndependent, FilteringBehavior: vnet.EndpointIndependent}})
+		if err != nil {
+			return "delay:ctor", err.Error()
+		}
+		if err := wan.AddRouter(lan); err != nil {
+			return "delay:ctor", err.Error()
+		}
+		src := &vnet.VerifNIC{StaticIPs: []net.IP{net.ParseIP("192.168.0.1").To4()}, OnChunk: func(vnet.Chunk) {}}
+		if err := lan.AddNet(src); err != nil {
+			return "delay:ctor", err.Error()
+		}
+		if err := wan.AddNet(sink); err != nil {
+			return "delay:ctor", err.Error()
+		}
+		if err := wan.Start(); err != nil {
+			return "delay:ctor", err.Error()
+		}
+		inject = func(ch vnet.Chunk) { src.Send(ch) }
+		stop = func() { _ = wan.Stop() }
+		parkFn = "vnet.(*Router).Start.func1"
+		delay *= 2
+		nat = true
 	case "router":
 		rt, err := vnet.NewRouter(&vnet.RouterConfig{CIDR: "10.9.0.0/24", MinDelay: delay, MaxJitter: time.Duration(c.JitterUs) * time.Microsecond, LoggerFactory: vn.Silent()})
 		if err != nil {
@@ -154,8 +185,13 @@ func runDelayCase(c dcase, r *res.Result) (string, string) {
 		parkFn = "vnet.(*Router).Start.func1"
 	}
 	defer stop()
+	nLoops := 1
+	if c.Kind == "router2" {
+		nLoops = 2
+	}
 
 	sent := map[vnet.Chunk]*drec{}
+	byTag := map[string]*drec{}
 	total := 0
 	for _, p := range c.Plans {
 		total += len(p)
@@ -172,10 +208,15 @@ func runDelayCase(c dcase, r *res.Result) (string, string) {
 				waitGap(g)
 				size := []int{0, 1, 8, 100, 1200}[rng.Intn(5)]
 				pl := vn.Payload(uint64(s)<<32|uint64(i+1), size)
-				ch := vnet.VerifNewChunkUDP(vn.UDP("10.9.0.1", 4000+s), vn.UDP(sinkIP, 5000), pl)
+				srcIP := "10.9.0.1"
+				if c.Kind == "router2" {
+					srcIP = "192.168.0.1"
+				}
+				ch := vnet.VerifNewChunkUDP(vn.UDP(srcIP, 4000+s), vn.UDP(sinkIP, 5000), pl)
 				rec := &drec{sender: s, seq: i, hash: vn.Hash(pl), src: ch.SourceAddr().String(), dst: ch.DestinationAddr().String()}
 				smu.Lock()
 				sent[ch] = rec
+				byTag[ch.Tag()] = rec
 				smu.Unlock()
 				rec.a = time.Now()
 				inject(ch)
@@ -223,7 +264,7 @@ wait:
 				st := ""
 				for k := 0; k < 3; k++ {
 					ps := gstate.ParkedIn(gstate.Snapshot(), parkFn)
-					if len(ps) == 1 {
+					if len(ps) == nLoops {
 						stable++
 						st = ps[0].State
 					}
@@ -261,7 +302,7 @@ wait:
 					mu.Lock()
 					n2 := len(got)
 					mu.Unlock()
-					if n2 != n || len(gstate.ParkedIn(gstate.Snapshot(), parkFn)) != 1 {
+					if n2 != n || len(gstate.ParkedIn(gstate.Snapshot(), parkFn)) != nLoops {
 						stable = false
 					}
 					time.Sleep(2 * time.Millisecond)
@@ -292,16 +333,24 @@ wait:
 	defer smu.Unlock()
 	next := make([]int, len(c.Plans))
 	seen := map[vnet.Chunk]bool{}
+	seenTag := map[string]bool{}
 	for _, g := range got {
 		rec := sent[g.ptr]
+		if nat {
+			rec = byTag[g.tag]
+			if rec != nil && seenTag[g.tag] {
+				return "delay:" + c.Kind + ":duplicate", fmt.Sprintf("datagram sender=%d seq=%d forwarded twice", rec.sender, rec.seq)
+			}
+			seenTag[g.tag] = true
+		}
 		if rec == nil {
 			return "delay:" + c.Kind + ":invented", fmt.Sprintf("sink received chunk tag=%s that was never handed in", g.tag)
 		}
-		if seen[g.ptr] {
+		if !nat && seen[g.ptr] {
 			return "delay:" + c.Kind + ":duplicate", fmt.Sprintf("datagram sender=%d seq=%d forwarded twice", rec.sender, rec.seq)
 		}
 		seen[g.ptr] = true
-		if g.hash != rec.hash || g.src != rec.src || g.dst != rec.dst {
+		if g.hash != rec.hash || (!nat && g.src != rec.src) || g.dst != rec.dst {
 			return "delay:" + c.Kind + ":modified", fmt.Sprintf("datagram sender=%d seq=%d was modified", rec.sender, rec.seq)
 		}
 		if rec.seq != next[rec.sender] {
@@ -360,6 +409,9 @@ func runDelay(tier string, seed int64, shard, nshard int, r *res.Result, replay 
 		kind := "filter"
 		if i%3 == 2 {
 			kind = "router"
+			if i%6 == 5 {
+				kind = "router2"
+			}
 		}
 		c := genDelayCase(rng, kind)
 		r.Eval(1)
